@@ -1,5 +1,6 @@
 import Goflow
 import Goflow.Gen.C05
+import Goflow.Gen.C03
 import Goflow.Gen.Malformed
 /-!
   goflow-model: the executable side of the model.
@@ -9,7 +10,11 @@ import Goflow.Gen.Malformed
 open Goflow
 
 structure DState where
-  dummy : Nat := 0
+  stores : List (String × Netflow.Store) := []
+
+def DState.store (st : DState) (sid : String) : Netflow.Store := (st.stores.lookup sid).getD []
+def DState.setStore (st : DState) (sid : String) (s : Netflow.Store) : DState :=
+  { st with stores := (sid, s) :: st.stores.filter (fun e => e.1 != sid) }
 
 def resLine : Err → String
   | .eof => "res err"
@@ -27,6 +32,16 @@ def execCall (st : DState) (args : List String) : DState × List String :=
       match V5.decodeMessageVersion d with
       | .ok p => (st, ["res ok", "v5 " ++ p.toD.render])
       | .error e => (st, [resLine e])
+  | ["nf", sid, hex] =>
+    match parseHex hex with
+    | none => (st, ["bad-op"])
+    | some d =>
+      let o := Netflow.decodeMessageVersion (st.store sid) d
+      let st' := st.setStore sid o.store
+      match o.outcome with
+      | none => (st', ["res ok", "nf " ++ o.packet.toD.render])
+      | some .tnf => (st', ["res err:template-not-found", "nf " ++ o.packet.toD.render])
+      | some e => (st', [resLine e])
   | _ => (st, ["bad-op"])
 
 def execOp (st : DState) (line : String) : DState × Option (List String) :=
@@ -36,12 +51,13 @@ def execOp (st : DState) (line : String) : DState × Option (List String) :=
   | "#" :: _ => (st, none)
   | "expect" :: _ => (st, none)
   | "call" :: args => let (s, o) := execCall st args; (s, some o)
+  | ["reset"] => ({}, some ["res ok"])
   | _ => (st, some ["bad-op"])
 
 partial def loop (h : IO.FS.Stream) (out : IO.FS.Stream) (st : DState) : IO Unit := do
   let line ← h.getLine
   if line.isEmpty then return ()
-  let line := (line.dropRightWhile (fun c => c = '\n' || c = '\r'))
+  let line := String.ofList (line.toList.filter (fun c => c != '\n' && c != '\r'))
   let (st', o) := execOp st line
   match o with
   | none => pure ()
@@ -53,6 +69,7 @@ partial def loop (h : IO.FS.Stream) (out : IO.FS.Stream) (st : DState) : IO Unit
 def genOps (prop : String) (seed n : Nat) : List String :=
   match prop with
   | "C05" => Gen.run seed (Gen.C05.gen n)
+  | "C03" => Gen.run seed (Gen.C03.gen n)
   | _ => []
 
 def main (args : List String) : IO UInt32 := do
